@@ -31,6 +31,44 @@ def parse_entries(body):
     return out
 
 
+def py_urldecode(v):
+    """URL decoding of a well-formed value ('+' = blank, %hh = byte); None when an escape is malformed
+    or truncated (the library's result for those is not part of any documented format)"""
+    out, i = bytearray(), 0
+    while i < len(v):
+        c = v[i]
+        if c == 0x25:
+            h = v[i + 1:i + 3]
+            if len(h) != 2 or not re.fullmatch(rb"[0-9a-fA-F]{2}", h):
+                return None
+            out.append(int(h, 16))
+            i += 3
+        else:
+            out.append(0x20 if c == 0x2b else c)
+            i += 1
+    return bytes(out)
+
+
+def py_load(data, sep, dec):
+    """independent reading of the documented file format: one `name<sep>value` entry per line, blank
+    lines and lines starting with # ignored, name and value trimmed, value URL-decoded on request and
+    stored as a C string. Returns [(name, value + NUL)] or None when a value has a malformed escape."""
+    out = []
+    for line in data.split(b"\0")[0].split(b"\n"):
+        line = line.strip(WS)
+        if not line or line[:1] == b"#":
+            continue
+        name, _, val = line.partition(bytes([sep]))
+        name, val = name.strip(WS), val.strip(WS)
+        if dec:
+            val = py_urldecode(val)
+            if val is None:
+                return None
+            val = val.split(b"\0")[0]
+        out.append((name, val + b"\0"))
+    return out
+
+
 class Oracle:
     """ideal ordered multimap: a list of (name, value) pairs plus the four options"""
     def __init__(self):
@@ -58,7 +96,7 @@ class Oracle:
     def step(self, op, line):
         w = op.split()
         if " | " not in line:
-            return "malformed result line"
+            raise ValueError("malformed result line")      # truncated by a dying harness, or garbage
         res, dump = line.split(" | ", 1)
         r = res.split()
         if r and r[0].startswith("allocs="):      # allocation attempts of the call (overlay C11/C15)
@@ -82,6 +120,9 @@ class Oracle:
         if kind == "new":
             self.l = []
             self.set_opts("".join(w[1:5]))
+        elif kind == "end":            # the table is released and replaced by an empty default one
+            self.l = []
+            self.set_opts("0000")
         elif kind in ("put", "putstr", "putstrf", "putint"):
             k = unhex(w[1])
             v = unhex(w[3]) if kind == "put" else unhex(w[3]) + b"\0" if kind.startswith("putstr") else str(int(w[3])).encode() + b"\0"
@@ -134,10 +175,31 @@ class Oracle:
             if self.c:
                 # entries whose names are equal ignoring case may not be reordered; that IS the stable sort
                 pass
-        elif kind in ("walk", "walkn", "walkrm"):
+        elif kind == "inv":
+            # invalid arguments on the current table. Group 1 (before `/`): documented / coded EINVAL.
+            # Group 2: remove(NULL) = 0, removeobj(NULL) = false, getnext(NULL obj) = false (errno is
+            # not documented for these), debug(NULL) = false/EIO, save / load on a path that cannot be
+            # opened = false / -1. No out-parameter written; the table unchanged (dump compared below).
+            # getmulti(NULL name) is documented neither way and not judged here.
+            sl = r.index("/") if "/" in r else -1
+            g1, g2 = r[1:sl], r[sl + 1:]
+            if sl != 15 or any(x != "0:EINVAL" for x in g1):
+                bad = ("a call with a NULL argument / zero size did not fail with EINVAL (result:errno per call: put(NULL,v) "
+                       "put(k,NULL) put(k,v,0) putstr(NULL,v) putstr(k,NULL) putstrf(NULL) putint(NULL) get(NULL)x3 getstr(NULL)x2 "
+                       "getint(NULL) save(NULL path)): %s" % " ".join(g1))
+            elif (len(g2) < 9 or [x.split(":")[0] for x in g2[:4]] != ["0"] * 4 or g2[4] != "0:EIO" or not g2[5].startswith("0:")
+                  or not g2[6].startswith("-1:") or g2[7] != "sz=99"):
+                bad = ("remove(NULL) / removeobj(NULL) / getnext(NULL obj) / debug(NULL) / save or load on an unusable path did "
+                       "not fail as documented: %s" % " ".join(g2))
+        elif kind == "lock":
+            if res != "locked size %d" % len(self.l):
+                bad = "size inside lock/unlock reported %s; the multimap holds %d entries" % (res, len(self.l))
+        elif kind in ("walk", "walkn", "walkrm", "walkrmc"):
             key = None
             if kind == "walkn":
                 key = unhex(w[1])
+            if kind == "walkrmc":
+                kind = "walkrm"            # the removed objects were obtained with newmem = true
             if kind == "walkrm" and len(w) == 4:
                 key = unhex(w[2])
             want = [e for e in self.look() if key is None or self.eq(e[0], key)]
@@ -190,16 +252,30 @@ class Oracle:
             pass
         elif kind == "load":
             n = int(r[1]) if r[0] == "loaded" else None
+            want = py_load(unhex(w[1]), unhex(w[2])[0], w[3] == "1")
             if n is None or n < 0:
                 bad = "load reported %s" % res
             elif not self.u and num - len(self.l) != n:
                 bad = "load reported %d loaded entries, the table grew by %d" % (n, num - len(self.l))
-            resync = True
+            elif want is not None:
+                # the file is well-formed: exactly its entries are put, in file order, under the table's options
+                for k, v in want:
+                    self.put(k, v)
+                if n != len(want):
+                    bad = "load reported %d loaded entries; the file has %d entry lines" % (n, len(want))
+            else:
+                resync = True
         elif kind == "rt":
             sep = unhex(w[1])[0]
             old = list(self.l)
             strings = all(v.endswith(b"\0") and b"\0" not in v[:-1] for _, v in old)
             adm = all(admissible(k, sep) for k, _ in old)
+            if len(w) == 7 and w[6] == "0":
+                # plain (not encoded) save: the values survive when they have no blanks at either end,
+                # no line break and are not empty-after-trim ambiguities; only those tables are judged
+                adm = adm and all(v[:-1] == v[:-1].strip(WS) and b"\n" not in v for _, v in old)
+                if res == "nonul":
+                    return None if got == self.l else "a refused operation changed the table"
             self.l = []
             self.set_opts("".join(w[2:6]))
             if strings and adm:
@@ -438,13 +514,65 @@ class TheCheck(Check):
                 ops += ["load %s 3d %s" % (hexs(f), rng.choice("01")), "size"]
         sts.append(Stream("save-load", ops, history=True, note="values over all 255 non-NUL bytes; arbitrary files"))
 
+        # 5b. save/load glue: every separator (also blank, tab, colon) x encode on/off x awkward values
+        #     (empty, separator inside, line break, %, escapes-lookalikes, bytes >= 0x80, blanks at the ends);
+        #     hand-written files: CRLF, no final newline, empty lines, no separator, duplicates (UNIQUE tables)
+        ops = []
+        awkward = [b"", b"a=b", b"=", b"x:y", b"t\tab", b"two  words", b"line1\nline2", b"cr\rlf", b"100%", b"%41", b"%4", b"%zz", b"a+b",
+                   b"\x80\xff\xfe", b"  lead", b"trail  ", b" both ", b"\t", b" ", b"#hash", b"x" * 1500, b"caf\xc3\xa9"]
+        for sep in ("3d", "20", "3a", "09", "7c", "2c"):
+            for o in ("0 0 0 0", "1 0 0 0", "0 1 1 1", "1 1 0 1"):
+                ops.append("new " + o)
+                for i, v in enumerate(awkward):
+                    ops.append(kop("putstr", b"k%02d" % i, hexs(v)))
+                ops += ["save %s 1" % sep, "save %s 0" % sep, "rt %s %s 1" % (sep, o), "walk 0", "rt %s %s 0" % (sep, o), "walk 0", "size"]
+                # only values a plain save can carry: the plain round trip is judged too
+                ops.append("new " + o)
+                for i, v in enumerate([b"", b"a=b", b"x:y", b"in  side", b"100%", b"%41", b"a+b", b"\x80\xff", b"#hash", b"y" * 1100]):
+                    ops.append(kop("putstr", b"p%d" % i, hexs(v)))
+                ops += ["rt %s %s 0" % (sep, o), "walk 0", "rt %s 0 0 0 0 0" % sep, "rt %s %s 1" % (sep, o), "size"]
+        files = [b"a=1\r\nb=2\r\n", b"a=1\nb=2", b"\n\n a = 1 \n\n\nb=2\n\n", b"nosep\nalso no sep \n", b"a=1\na=2\nA=3\na=4\n",
+                 b"a=1\r\n\r\n#c\r\nb=%32\r\nlast=x", b"k=v=w\n=onlyvalue\nk2=\n", b"  # indented comment\nreal=1\n", b"\r\n", b"x",
+                 b"a 1\nb\t2\nc:3\nd=4\n", b"sp ace=v\n", b"a=%zz\nb=%4\n", b"u=%C3%A9+x\n"]
+        for o in ALL_OPTS:
+            for f in files:
+                for sep in ("3d", "20", "3a", "09"):
+                    if sep != "3d" and not (o in ("0 0 0 0", "1 1 0 0") or rng.random() < 0.15):
+                        continue
+                    ops += ["new " + o, kop("putstr", b"a", hexs(b"old")), "load %s %s 1" % (hexs(f), sep), "walk 0",
+                            "load %s %s 0" % (hexs(f), sep), "size"]
+        ops += ["end"]
+        sts.append(Stream("save-load-glue", ops, history=True,
+                          note="separators = blank : tab | , ; encode on/off; CRLF, no final newline, no separator, duplicates on UNIQUE"))
+
+        # 5c. argument validation, method pointers, thread-safe option, getmulti around the growth of its array
+        ops = []
+        for o in ALL_OPTS:
+            for ts in "01":
+                ops += ["new %s %s" % (o, ts), "inv", "lock", "size", kop("put", b"a", "31"), "inv", "lock", kop("put", b"A", "32"),
+                        kop("put", b"b", "3300"), "inv", "sort", "inv", "reset", "next 1", "inv", "rmobj", "next 0", "rmobj", "inv",
+                        "walkrmc 1", "inv", kop("putint", b"n", "5"), kop("getint", b"N"), "clear", "inv", "lock", "walk 0",
+                        kop("putstrf", b"z", hexs(b"after clear")), "inv", "walkrmc 255", "size"]
+        for o in ALL_OPTS:
+            for cnt in (0, 1, 2, 9, 10, 11, 19, 20, 21):
+                ops.append("new " + o)
+                for i in range(cnt):
+                    ops += [kop("put", b"m", hexs(b"v%d" % i))] + ([kop("put", b"other", "6f")] if i % 4 == 1 else [])
+                ops += [kop("getmulti", b"m", "0"), kop("getmulti", b"m", "1"), kop("getmulti", b"m", "2"), kop("getmulti", b"M", "2"),
+                        kop("getmulti", b"absent", "1"), "inv", "walkrmc %d" % 0b1010101, kop("getmulti", b"m", "2"), "size"]
+        ops += ["end"]
+        sts.append(Stream("invalid-args-locks-getmulti", ops, history=True,
+                          note="inv = invalid-argument calls; getmulti with 0 1 2 9 10 11 19 20 21 matches x newmem x freemulti"))
+
         # 6. ints and strings
         ops = []
         for o in ("0 0 0 0", "1 1 1 1"):
             ops.append("new " + o)
             for n in [0, 1, -1, 10, -10, INT64_MAX, INT64_MIN] + [rng.randrange(INT64_MIN, INT64_MAX + 1) for _ in range(10)]:
                 ops += [kop("putint", b"n", str(n)), kop("getint", b"n"), kop("getstr", b"N")]
-            for s in [b"12", b" \t\n\v\f\r 42x", b"+7", b"--1", b"99999999999999999999", b"-99999999999999999999", b"", b"x"]:
+            for s in [b"12", b" \t\n\v\f\r 42x", b"+7", b"--1", b"99999999999999999999", b"-99999999999999999999", b"", b"x",
+                      b"010", b"0x1f", b"0X1F", b" 42", b"-0", b"9223372036854775808", b"9223372036854775807", b"-9223372036854775808",
+                      b"-9223372036854775809", b"1e3", b"+-1", b"- 1", b"12abc", b"\xa07", b"\xd9\xa3"]:
                 ops += [kop("putstr", b"s", hexs(s)), kop("getint", b"s"), kop("getstr", b"s")]
             ops += [kop("put", b"s", "-"), kop("put", b"s", hexs(b"12")), kop("getint", b"s"), kop("getstr", b"s"), kop("getint", b"absent")]
         sts.append(Stream("ints", ops, history=True))
@@ -456,11 +584,15 @@ class TheCheck(Check):
         for hno in range(nh):
             o = ALL_OPTS[hno % 16]
             pool = pool0 + [bytes(rng.randrange(1, 256) for _ in range(rng.randrange(1, 20)))]
-            ops.append("new " + o)
+            ops.append("new %s %s" % (o, rng.choice("01")))
             for _ in range(rng.randrange(5, nops)):
                 k = rng.choice(pool)
                 x = rng.random()
-                if x < 0.25:
+                if x < 0.02:
+                    ops.append("inv")
+                elif x < 0.03:
+                    ops.append(rng.choice(["lock", "walkrmc %d" % rng.getrandbits(8), "rt 3d %s 0" % rng.choice(ALL_OPTS)]))
+                elif x < 0.25:
                     v = bytes(rng.choice([0, rng.randrange(256), rng.randrange(0x30, 0x3a)]) for _ in range(rng.choice([0, 1, 2, 5, 17])))
                     ops.append(kop("put", k, hexs(v)))
                 elif x < 0.33:
